@@ -48,7 +48,9 @@ fn judge(property: &str, plan: &Plan, reference: &ExecRecord, rec: &ExecRecord) 
             v.extend(oracle::c01(reference, rec));
         }
         "C02" => {
-            v.extend(oracle::c02_single(reference.outcome.class == "ok", rec));
+            // a failure in the task graph's own words is a violation whatever the reference
+            // run did: an invalid source is supposed to fail with a diagnostic of its own
+            v.extend(oracle::c02_single(true, rec));
             v.extend(oracle::c02_producers(reference, rec));
             // bytes that depend on nothing but the schedule are C01's business
             v.extend(oracle::c01(reference, rec));
